@@ -55,18 +55,19 @@ def _fn(name, dom, items):
 
 
 def tok(t):
-    return "Tok(%s, %s)" % (tla(t["tag"]), tla(t["val"]))
+    return "%s(%s, %s)" % ("LTok" if isinstance(t["val"], list) else "Tok", tla(t["tag"]), tla(t["val"]))
 
 
-def constants_module(desc, module="MC_DF", extends="Dataflow", extra=""):
+def _fnv(dom, items):
+    body = " [] ".join('x = %s -> %s' % (tla(k), v) for k, v in items)
+    return "[x \\in %s |-> CASE %s]" % (dom, body) if items else "<<>>"
+
+
+def net_record(desc):
     m = expand(desc)
     names = [s["name"] for s in m["steps"]]
-    lines = ["---- MODULE %s ----" % module, "EXTENDS %s" % extends,
-             "cSteps == %s" % tla(set(names)),
-             "cPorts == %s" % tla(set(m["ports"])),
-             _fn("cKind", "cSteps", [(s["name"], tla(s["kind"])) for s in m["steps"]]),
-             _fn("cIn", "cSteps", [(s["name"], tla(s["ins"])) for s in m["steps"]]),
-             _fn("cOut", "cSteps", [(s["name"], tla(s["outs"])) for s in m["steps"]])]
+    steps = tla(set(names))
+    ports = tla(set(m["ports"]))
     inp = []
     for p in m["ports"]:
         if p in m["inputs"]:
@@ -74,39 +75,45 @@ def constants_module(desc, module="MC_DF", extends="Dataflow", extra=""):
         else:
             seq = "<<>>"
         inp.append((p, seq))
-    lines.append(_fn("cInputs", "cPorts", inp))
-    lines.append("cOutPorts == %s" % tla(set(m["outputs"])))
-    lines.append("cFail == {%s}" % ", ".join("<<%s, %s>>" % (tla(s), tla(t)) for s, t in m["fail"]))
     exp = expected(desc)
-    lines.append("cExpected == {%s}" % ", ".join("<<%s, %s, %s>>" % (tla(p), tla(t), tla(v)) for p, t, v in exp["outputs"]))
-    lines.append("Confluent == (xstate = \"returned\") => (outputs = cExpected)")
-    lines.append(extra)
-    lines.append("====")
+    fields = [
+        ("steps", steps), ("ports", ports),
+        ("kind", _fnv(steps, [(s["name"], tla(s["kind"])) for s in m["steps"]])),
+        ("ins", _fnv(steps, [(s["name"], tla(s["ins"])) for s in m["steps"]])),
+        ("outs", _fnv(steps, [(s["name"], tla(s["outs"])) for s in m["steps"]])),
+        ("inputs", _fnv(ports, inp)),
+        ("outports", tla(set(m["outputs"]))),
+        ("fail", "{%s}" % ", ".join("<<%s, %s>>" % (tla(s), tla(t)) for s, t in m["fail"])),
+        ("expected", "{%s}" % ", ".join("<<%s, %s, %s>>" % (tla(p), tla(t), tla(v)) for p, t, v in exp["outputs"])),
+        ("deadend", "TRUE" if "dead-end" in desc.get("classes", []) else "FALSE"),
+    ]
+    return "[" + ",\n   ".join("%s |-> %s" % f for f in fields) + "]"
+
+
+def constants_module(descs, module="MC_DF", extends="Dataflow", extra=""):
+    """One instance module for a whole batch of networks (cNets)."""
+    if isinstance(descs, dict):
+        descs = [descs]
+    lines = ["---- MODULE %s ----" % module, "EXTENDS %s" % extends,
+             "cNets == <<\n  " + ",\n  ".join(net_record(d) for d in descs) + "\n>>", extra, "===="]
     return "\n".join(lines)
 
 
-CFG_CONST = """CONSTANTS
-  Steps <- cSteps
-  Ports <- cPorts
-  Kind <- cKind
-  In <- cIn
-  Out <- cOut
-  Inputs <- cInputs
-  OutPorts <- cOutPorts
-  Fail <- cFail
-"""
+CFG_CONST = "CONSTANT Nets <- cNets\n"
 SAFETY = ["ReturnMeansAllDone", "FailureMeansRaise", "OneTermPerStep", "ProvenanceOK", "PutImpliesPersisted",
-          "ProvAcyclicByConstruction", "Confluent"]
+          "ProvAcyclicByConstruction", "Confluent", "OnlyCloseCancelRaises"]
 
 
-def cfg(liveness=True, invariants=None, no_spurious=True):
+def cfg(liveness=True, invariants=None, spec="SpecQ"):
     inv = list(invariants if invariants is not None else SAFETY)
-    if no_spurious:
-        inv.append("NoSpuriousRaise")
-    s = CFG_CONST + "SPECIFICATION Spec\n" + "".join("INVARIANT %s\n" % i for i in inv)
+    s = CFG_CONST + "SPECIFICATION %s\n" % spec + "".join("INVARIANT %s\n" % i for i in inv)
     if liveness:
         s += "PROPERTY ExecutorEnds\nPROPERTY EveryStepEnds\n"
     return s
+
+
+TRACE_CFG = CFG_CONST + "INIT TInit\nNEXT TNext\nINVARIANT Accept\nCONSTRAINT Diag\n" + \
+    "".join("INVARIANT %s\n" % i for i in SAFETY if i not in ("Confluent",))
 
 
 # ------------------------------------------------------------------------------------------------
@@ -187,3 +194,84 @@ def expected(desc):
             outs.append((p, list(t), v))
     return {"outputs": outs, "fails": bool(fail), "streams": streams,
             "output_failed": any(p in failed_ports for p in desc["outputs"])}
+
+
+# ------------------------------------------------------------------------------------------------
+# recorded events -> trace records for Trace_Dataflow
+# ------------------------------------------------------------------------------------------------
+def to_trace(desc, run):
+    """Deterministic relabelling of a recorded run: database ids -> token identities <<port, tag>>,
+    persist+put pairs -> "emit", termination puts of one terminate() call -> "term".
+    Returns (trace, problems) where problems lists events that cannot even be expressed (e.g. unknown step)."""
+    m = expand(desc)
+    real2model = {s["real"]: s["name"] for s in m["steps"]}
+    ident = {}
+    problems = []
+    toks_db, prov_db, ports_db = run["db"] if run.get("db") else ({}, [], {})
+
+    def identity(i):
+        if i in ident:
+            return ident[i]
+        if i in toks_db:
+            row = toks_db[i]
+            return [ports_db.get(row["port"], "?port%s" % row["port"]), [int(c) for c in row["tag"].split(".")]]
+        return ["?unknown", [i]]
+
+    def tokfields(e):
+        k = e["k"]
+        v = e.get("val", 0)
+        if k == "job":
+            return "job", 0
+        if isinstance(v, list):
+            return "lst", v
+        if isinstance(v, str):      # connector token
+            return "tok", 0
+        return "tok", v
+
+    pending = {}
+    out = []
+    evs = run["events"]
+    i = 0
+    while i < len(evs):
+        e = evs[i]
+        ev = e["ev"]
+        if ev == "persist":
+            pending[e["id"]] = e
+            ident[e["id"]] = [e["port"], e["tag"]]
+        elif ev == "put":
+            if e.get("step") is None:
+                if e["k"] != "term" and e.get("id") is not None:
+                    ident[e["id"]] = [e["port"], e["tag"]]
+            elif e["k"] == "term":
+                step = real2model.get(e["step"])
+                if step is None:
+                    problems.append({"what": "termination put by unknown step", "event": e})
+                else:
+                    # group the termination puts of this terminate() call
+                    ports = [e["port"]]
+                    j = i + 1
+                    while j < len(evs) and evs[j]["ev"] == "put" and evs[j].get("k") == "term" and evs[j].get("step") == e["step"] \
+                            and evs[j]["st"] == e["st"] and evs[j]["port"] not in ports:
+                        ports.append(evs[j]["port"])
+                        j += 1
+                    out.append({"ev": "term", "step": step, "st": e["st"], "ports": ports})
+                    i = j
+                    continue
+            else:
+                step = real2model.get(e["step"])
+                k, v = tokfields(e)
+                rec = {"step": step or ("?" + str(e["step"])), "port": e["port"], "k": k, "tag": e["tag"], "val": v}
+                p = pending.pop(e.get("id"), None) if e.get("id") is not None else None
+                if p is None:
+                    rec["ev"] = "rawput"
+                    rec["deps"] = []
+                else:
+                    rec["ev"] = "emit"
+                    rec["deps"] = sorted(identity(x) for x in p["inputs"])
+                out.append(rec)
+        elif ev == "return":
+            out.append({"ev": "return", "outs": sorted([[k, v] for k, v in (run.get("result") or {}).items()], key=lambda x: x[0])})
+        elif ev == "raise":
+            out.append({"ev": "raise", "outs": []})
+        i += 1
+    return out, problems
